@@ -203,3 +203,21 @@ package local
 //@   ensures [not-quarantined] err == nil ==> absoluteBlockIndex >= old(lbm.totalBlocksToBeReleased)
 //@   ensures [size] err == nil ==> result0.SizeBytes == sizeBytes && result0.OffsetBytes >= 0
 //@   ensures [error-code] err != nil ==> true
+
+// ---- C05 lemmas: the remaining life of a block.
+// life(i) = i + 1 + desiredOld - #old for the block at relative index i. One
+// allocation round (findBlockWithSpace, postcondition "life") lowers it by at
+// most the number of blocks pushed, and a block is dropped only with life <= 0.
+// A block outside the "old" group has life >= desiredOld + 1.
+//@ lemma L05_step(i int, oldLen0 int, oldLen int, pops int, pushes int, desired int)
+//@   requires lifeBudget(pops, oldLen, oldLen0, pushes, desired) && oldLen0 >= 0 && oldLen >= 0
+//@   ensures [costs-at-most-pushes] (i - pops) + 1 + desired - oldLen >= i + 1 + desired - oldLen0 - pushes
+//@   ensures [dropped-only-when-spent] i - pops < 0 && i >= 0 ==> (i - pops) + 1 + desired - oldLen <= 0
+//@ lemma L05_init(i int, oldLen int, desired int)
+//@   requires i >= oldLen
+//@   ensures [fresh-life] i + 1 + desired - oldLen >= desired + 1
+// Canary: without "blocks are dropped only while the old group is full" the
+// second conclusion of L05_step is not provable.
+//@ lemma L05_canary(i int, oldLen0 int, oldLen int, pops int, pushes int, desired int)
+//@   requires pops >= 0 && pops + oldLen <= oldLen0 + pushes && oldLen0 >= 0 && oldLen >= 0
+//@   ensures [dropped-only-when-spent] i - pops < 0 && i >= 0 ==> (i - pops) + 1 + desired - oldLen <= 0
